@@ -423,6 +423,8 @@ func (c *opsCase) readBattery(roots []*node) {
 		if out := c.emit("serde sd p"); strings.HasPrefix(out, "ok") {
 			c.emit("owalk sd")
 			c.expectLast(ordRoots(roots))
+			c.emit("nopsexact sd")
+			c.expectLast("exact")
 		} else {
 			c.expectLast("<Serialize/Deserialize of the edited tape succeeds>")
 		}
